@@ -912,13 +912,15 @@ class NNDescent:
                     if init_graph.shape[0] != self._raw_data.shape[0]:
                         raise ValueError("Init graph size does not match dataset size!")
                     _init_graph = make_heap(init_graph.shape[0], self.n_neighbors)
-                    if init_dist is None:
-                        _init_graph = initalize_heap_from_graph_indices(
-                            _init_graph, init_graph, data, self._distance_func
-                        )
-                    elif init_graph.shape != init_dist.shape:
+                    if init_dist is not None and init_graph.shape != init_dist.shape:
                         raise ValueError(
                             "The shapes of init graph and init distances do not match!"
+                        )
+                    if init_dist is None or self._distance_correction is not None:
+                        # init_dist is given in the public metric; when the index works
+                        # with a surrogate distance internally, recompute the distances
+                        _init_graph = initalize_heap_from_graph_indices(
+                            _init_graph, init_graph, data, self._distance_func
                         )
                     else:
                         _init_graph = initalize_heap_from_graph_indices_and_distances(
